@@ -144,6 +144,20 @@ def make_objective(name: str, box: np.ndarray, maximize: bool, shift: float = 0.
                 return float("nan")
             return float(np.sum((u - c) ** 2)) + shift
 
+    elif name == "infhole":
+        # a penalty objective: the worst possible value (+inf when minimising) on a slab of the box
+        def f(x):
+            u = (np.asarray(x, dtype=float) - lo) / rng
+            if 0.42 <= u[0] <= 0.62:
+                return float("inf")
+            return float(np.sum((u - c) ** 2)) + shift
+
+    elif name == "tiny_offset":
+        # all values within 1e-12 relative of 7: every improvement is only a few ulps
+        def f(x):
+            u = (np.asarray(x, dtype=float) - lo) / rng
+            return 7.0 + 1e-12 * float(np.sum((u - c) ** 2)) + shift
+
     elif name == "nanhalf":
         # undefined on half of the box (like sqrt of a coordinate that may be negative)
         def f(x):
